@@ -16,7 +16,7 @@ PROPS = {
                 assumptions=["A1: inserting the 4-line block at a statement boundary of a function body, plus one import, keeps the package compiling"]),
     "C02": dict(lean=["GoatSpec.Properties.C02", "GoatSpec.Properties.Pools"], streams=["marks-corpus", "marks-stdlib", "marks-gen"], e2e=["track"], trusted=_INSTR_TRUSTED,
                 assumptions=["A2: go/printer∘go/parser preserves syntax tree and comments", "A3: astutil.AddNamedImport only edits import declarations"]),
-    "C03": dict(lean=["GoatSpec.Properties.C03", "GoatSpec.Properties.Walker"], streams=["marks-corpus", "marks-stdlib", "marks-gen"], e2e=["track"], trusted=_INSTR_TRUSTED, assumptions=[]),
+    "C03": dict(lean=["GoatSpec.Properties.C03", "GoatSpec.Properties.C03Patch", "GoatSpec.Properties.Walker"], streams=["marks-corpus", "marks-stdlib", "marks-gen"], e2e=["track"], trusted=_INSTR_TRUSTED, assumptions=[]),
     "C09": dict(lean=["GoatSpec.Properties.C09", "GoatSpec.Properties.C09Shape", "GoatSpec.Properties.Walker"], streams=["marks-corpus", "marks-stdlib", "marks-gen", "diff-exact"], e2e=["track"], trusted=_INSTR_TRUSTED, assumptions=[]),
     "C06": dict(
         lean=["GoatSpec.Properties.C06", "GoatSpec.Properties.Pools"],
